@@ -55,23 +55,27 @@ def apply(F, S):
         S.bad("B2", "unrecognised-build", "build", "UNRECOGNISED idiom in build(): %s" % e, loc(fn.span))
         return
     ret = r["ret"]
-    disc = {}
-    for f in FIELDS:
-        a, pol = lit(("==", ("c", "int", 1), ("discr", ("pre", "self." + f))))
-        disc[f] = (a, pol)
     atoms = set()
     for conds, leaf in leaves(ret):
         for a, _ in conds:
             atoms.add(a)
-    disc_atoms = {a for a, _ in disc.values()}
-    missing = [f for f in FIELDS if disc[f][0] not in atoms]
+    # presence tests: `discr(field) == 1` (Some) or `discr(field) == 0` (None), in either form
+    def presence_facts(vals):
+        facts = {}
+        for f, v in zip(FIELDS, vals):
+            for k in (0, 1):
+                a, pol = lit(("==", ("c", "int", k), ("discr", ("pre", "self." + f))))
+                facts[a] = (pol == (v == bool(k)))
+        return facts
+    disc_atoms = set(presence_facts([True] * 5))
+    missing = [f for f in FIELDS if not any(a in atoms for a in presence_facts([True] * 5) if ("pre", "self." + f) in [x for x in subterms(a)])]
     if missing:
         S.bad("B2", "completeness-test-missing", ",".join(missing), "build() never tests whether %s was set" % ", ".join(missing), loc(fn.span))
         return
     cmp_atoms = atoms - disc_atoms
     n2 = 0
     for vals in itertools.product([True, False], repeat=5):
-        facts = {disc[f][0]: (v == disc[f][1]) for f, v in zip(FIELDS, vals)}
+        facts = presence_facts(vals)
         sub = simp(ret, facts)
         desc = ",".join("%s=%s" % (f, "Some" if v else "None") for f, v in zip(FIELDS, vals))
         if all(vals):
